@@ -91,7 +91,70 @@ func (e *c09Exec) Check(o *mc.Outcome) []Viol {
 	return vs
 }
 
+// ---- C07 (massive mode): confinement and name validation under every schedule within the bound
+
+type c07Exec struct {
+	*DrvRun
+	invalid bool
+}
+
+func (e *c07Exec) Outcome() string { return fmt.Sprintf("err=%v fs=%d", e.Err != nil, len(e.After)) }
+
+func (e *c07Exec) Check(o *mc.Outcome) []Viol {
+	e.Finish()
+	if !e.Returned || o.End() == "panic" {
+		return nil
+	}
+	var vs []Viol
+	if e.OutsideChanged != "" {
+		vs = append(vs, Viol{"C07|escaped-target|massive|" + e.d.Op, fmt.Sprintf("driver %s: outside the target: %s (err=%v)", e.d, e.OutsideChanged, e.Err)})
+	}
+	if e.invalid && e.Err == nil {
+		vs = append(vs, Viol{"C07|invalid-name-accepted|massive|" + e.d.Op, fmt.Sprintf("driver %s: a name is not a single valid path element but the call returned nil (target now %v)", e.d, keys(e.After))})
+	}
+	return vs
+}
+
 func init() {
+	scenarioGens["C07"] = func(tier string) []*Scenario {
+		k := 1
+		if tier == "thorough" {
+			k = 2
+		}
+		hostile := []string{"../../../esc", "a/b", "..", "."}
+		var out []*Scenario
+		for hi, h := range hostile {
+			for pos := 0; pos < 3; pos++ {
+				for _, asRoot := range []bool{true, false} {
+					doc := ""
+					for r := 0; r < 3; r++ {
+						switch {
+						case r == pos && asRoot:
+							doc += "- " + h + "\n  - k\n"
+						case r == pos:
+							doc += fmt.Sprintf("- r%d\n  - %s\n  - k\n", r, h)
+						default:
+							doc += fmt.Sprintf("- r%d\n  - k\n    - kk\n", r)
+						}
+					}
+					for _, op := range []string{"mkdir", "mkdir-dry", "out-dry"} {
+						if (hi > 1 || !asRoot) && op != "mkdir" {
+							continue
+						}
+						d := NewDrv(op, doc)
+						name := fmt.Sprintf("c07/h%d/pos%d/root=%v/%s", hi, pos, asRoot, op)
+						out = append(out, &Scenario{Name: name, Prop: "C07", Workers: w2, Bound: k, Policies: []int{0, 1, 2},
+							New: func() Exec { return &c07Exec{DrvRun: d.New(), invalid: true} }})
+					}
+				}
+			}
+		}
+		// a valid forest: nothing outside the target, no error
+		d := NewDrv("mkdir", "- a\n  - b\n- c\n  - d\n")
+		out = append(out, &Scenario{Name: "c07/valid/mkdir", Prop: "C07", Workers: w2, Bound: k, Policies: []int{0, 1, 2},
+			New: func() Exec { return &c07Exec{DrvRun: d.New()} }})
+		return out
+	}
 	scenarioGens["C02"] = func(tier string) []*Scenario {
 		k := 1
 		pols := []int{0, 1, 2}
@@ -101,6 +164,7 @@ func init() {
 		docs := []string{
 			"- a\n  - b\n- c\n  - d\n", "- a\n  - b\n    - c\n- d\n- e\n  - f\n",
 			"- a\n  -\n- c\n  - d\n", "- a\n  - b\n- c\n   x\n", "- a\n  - b\n    - c\n- d\n      - e\n", "- a\n  - b\n    - c\n      - d\n- e\n  - f\n- g\n        - h\n",
+			"* a\n  + b\n+ c\n  * d\n+ e\n", "+ a\n+ b\n  + c\n+ d\n", "* a\n  - b\n* c\n",
 			"- a\n  - b\n- c\n   - d\n", "- a\n  - b\n- c\n \t- d\n", "- a\n  - b\n- c\n  - d\n\t- e\n",
 		}
 		var out []*Scenario
